@@ -60,6 +60,12 @@ def _setattr_keep_slot(obj, name, val):
                     obj.__dict__.pop(name, None)
                 place[name] = val
                 return
+    if getattr(type(obj), name, None) is val:
+        # the class itself provides this tensor under the name: the instance needs
+        # no entry of its own (putting back a tensor inherited from the class must
+        # not turn it into an attribute of the instance)
+        getattr(obj, "__dict__", {}).pop(name, None)
+        return
     setattr(obj, name, val)
 
 def _delattr_keep_slot(obj, name):
